@@ -128,10 +128,10 @@ class Driver:
             except asyncio.CancelledError:
                 raise
             except Exception:
-                drv.attempts[name].append((0 if isinstance(m, AddUserReq) else 1, False, drv.events[name].count('ServerClosed')))
+                drv.attempts[name].append((0 if isinstance(m, AddUserReq) else 1, False, drv.events[name].count('ServerClosed'), len(drv.events[name])))
                 drv.log(name, 'SendFails')
                 raise
-            drv.attempts[name].append((0 if isinstance(m, AddUserReq) else 1, True, drv.events[name].count('ServerClosed')))
+            drv.attempts[name].append((0 if isinstance(m, AddUserReq) else 1, True, drv.events[name].count('ServerClosed'), len(drv.events[name])))
             drv.log(name, 'WorkerStep')
             drv.out(name, (0 if isinstance(m, AddUserReq) else 1, 0))
             if beh in ('exists', 'notexists'):
@@ -427,7 +427,7 @@ def monitor(script, tr):
                 Rr = 0
                 seg += 1
         seg_obs = {}
-        for kind, ok, g in U.get('attempts', []):
+        for kind, ok, g, *_pos in U.get('attempts', []):
             lst = seg_obs.setdefault(g, [])
             if not (kind == 0 and lst and lst[-1] == 0):      # a repeated AddUser is a retry of the same change
                 lst.append(kind)
@@ -478,6 +478,29 @@ def monitor(script, tr):
             v.append(('tracked-without-reason-or-confirmation', f'{u}: state TRACKED with reasons {R}, confirmed={confirmed}', {'user': u}))
         if R == 0 and state != 0 and not (present and alive):
             v.append(('state-not-untracked', f'{u}: no reasons but state {state}', {'user': u}))
+        # (5b) a retry that expires while a reason remains re-sends AddUser: if the reference set is non-empty from the expiry
+        # to the end (no disconnect) and the queue has been worked off, an AddUser request follows the expiry
+        Rt = 0
+        ok_from = None            # position since which the reference set has been non-empty without interruption
+        for k_, e in enumerate(evs):
+            if e.startswith('Track '):
+                if Rt == 0 and int(e.split()[1]):
+                    ok_from = k_
+                Rt |= int(e.split()[1])
+            elif e.startswith('Untrack '):
+                Rt &= ~int(e.split()[1])
+                if Rt == 0:
+                    ok_from = None
+            elif e == 'ServerClosed':
+                Rt = 0
+                ok_from = None
+        if ok_from is not None and U['final'][3] == 0 and U['final'][0]:
+            fires = [k_ for k_, e in enumerate(evs) if e == 'TimerFires' and k_ > ok_from]
+            if fires:
+                t = fires[-1]
+                if not any(a[0] == 0 and len(a) > 3 and a[3] > t for a in U.get('attempts', [])):
+                    v.append(('retry-expired-without-resend', f'{u}: the retry timer expired (event {t}) while reasons remained, the queue is worked off, '
+                              f'but no AddUser was sent again', {'user': u}))
         # (5a) a failed attempt is retried after the delay documented for that failure (user/manager.py: 10 s after a network
         # error or no answer, 600 s when the server says the user does not exist), not earlier
         for rec in U.get('retries', []):
